@@ -170,6 +170,7 @@ def stage_of_ident(first_line):
 
 
 def run(ctx, res):
+    rng = ctx.rng
     root = tempfile.mkdtemp(prefix='c03-', dir=ctx.work)
     sbx, markers, home = (os.path.join(root, x) for x in ('sandboxes', 'markers', 'case'))
     for d in (sbx, markers, home):
@@ -234,6 +235,30 @@ def run(ctx, res):
         res.count('class: ' + cls)
         res.count('identifier: ' + first)
         res.nontrivial.add(text)
+        # the same case under the other ways of running a case: --act (assertions skipped) and --keep; the identifier is then on
+        # stderr, nothing but validation may have happened either
+        if not ctx.quick or rng.chance(0.4):
+            for mode in ('--act', '--keep'):
+                prm, nmm, nsm = run_case(text, [mode])
+                dm = dict(d, argv='%s test.case' % mode)
+                if prm.exception is not None:
+                    res.prop_failures.append(Failure('property', dm, 'exception escaped MainProgram.execute: %r' % prm.exception))
+                    continue
+                firstm = prm.err.split('\n')[0]
+                stm = stage_of_ident(firstm) or st
+                if stage == 'DefSymbols' and firstm == 'VALIDATION_ERROR':
+                    stm = 'DefSymbols'
+                if stage == 'DefActParse' and firstm == 'SYNTAX_ERROR':
+                    stm = 'DefActParse'
+                identm = {'SYNTAX_ERROR': '(IdAccess ACC_SYNTAX_ERROR)' if stm != 'DefActParse' else '(IdFull SYNTAX_ERROR)'}.get(firstm) or IDENT.get(firstm)
+                if identm is None or prm.out.strip() != '':
+                    res.prop_failures.append(Failure('property', dict(dm, observed={'exit': prm.exit_code, 'stdout': prm.out[:200], 'stderr': prm.err[:200]}),
+                                                     'under %s: no exit identifier on stderr, or something printed on stdout (action output / sandbox path)' % mode))
+                    continue
+                dm['observed'] = {'exit': prm.exit_code, 'identifier': firstm, 'markers': nmm, 'sandboxes_created': nsm}
+                terms.append('(C03Case %s %s %s %s %s)' % (stm, cZ(prm.exit_code), identm, cnat(nmm), cnat(nsm)))
+                meta.append(dm)
+                res.count('mode: ' + mode)
         # the symbol command on the same case
         pr2, nm2, ns2 = run_case(text, ['symbol'])
         if pr2.exception is not None:
